@@ -255,3 +255,23 @@ def lex_diff(req):
         if not same and len(fails) < limit:
             fails.append({"text": text, "real": enc(list(r)), "ref": enc(list(s))})
     return {"evaluations": n, "failures": fails}
+
+
+@register("parser_tables")
+def parser_tables(req):
+    """the LIVE grammar objects sly's LR driver consults: productions (with the action function's source line and the
+    attribute names sly gives its right-hand side), precedence, conflicts, start symbol, how `error` resolves"""
+    from pyab_experiment.language.grammar import ExperimentParser as P
+    from pyab_experiment.sly.yacc import Parser
+    g = P._grammar
+    prods = []
+    for p in g.Productions[1:]:
+        f = p.func
+        prods.append({"number": p.number, "name": p.name, "rhs": list(p.prod), "prec": list(p.prec), "names": list(p.namemap.keys()),
+                      "func": getattr(f, "__qualname__", None), "lineno": f.__code__.co_firstlineno if f is not None else None})
+    lr = P._lrtable
+    return {"productions": prods, "precedence": {k: list(v) for k, v in g.Precedence.items()}, "start": g.Start,
+            "sr_conflicts": [list(map(str, c)) for c in lr.sr_conflicts], "rr_conflicts": [list(map(str, c)) for c in lr.rr_conflicts],
+            "tokens": sorted(P.tokens), "terminals": sorted(t for t in g.Terminals if t not in ("error",)),
+            "error_is_sly_default": P.error is Parser.error, "error_owner": P.error.__qualname__,
+            "has_error_productions": any("error" in p.prod for p in g.Productions)}
